@@ -134,8 +134,8 @@ def nested_def(rnd, tid):
     """a struct that embeds another derived type (plain parser mode) through `external`"""
     names = uniq_names(rnd, rnd.randint(2, 4), FIELD_NAMES)
     k = rnd.randint(1, len(names) - 1)
-    mk = lambda ns, pre: [dict(field(rnd, n, i, tid), **{}) for i, n in enumerate(ns)]
-    outer, inner = mk(names[:k], "o"), mk(names[k:], "i")
+    mk = lambda ns, off: [field(rnd, n, i + off, tid) for i, n in enumerate(ns)]
+    outer, inner = mk(names[:k], 0), mk(names[k:], 3)      # explicit names are numbered: keep them distinct
     for f in outer + inner:
         f["ann"].update(positional=False, posmeta="", hide=False)
     return {"id": tid, "shape": "nested", "fields": outer, "variants": [], "version": False,
